@@ -134,17 +134,18 @@ func (h *H) Do(line string) {
 		h.EndHistory()
 		m := kv(f[1:])
 		c := EnvCfg{Cap: atoi(m["cap"]), ShMax: atoi(m["shmax"]), Per: atoi(m["per"]), Last: atoi(m["last"]), MinFee: atoi(m["minfee"]),
-			MaxRate: atoi(m["maxrate"]), Level: m["level"] == "1", NoExec: m["noexec"] == "1", Height: atoi(m["h"]), BlkTime: atoi(m["bt"]), Now: atoi(m["now"])}
+			MaxRate: atoi(m["maxrate"]), Level: m["level"] == "1", NoExec: m["noexec"] == "1", Para: m["para"] == "1", Height: atoi(m["h"]), BlkTime: atoi(m["bt"]), Now: atoi(m["now"])}
 		h.E = NewEnv(c)
 		h.Reg.ResetDefs()
+		h.Reg.Para = c.Para
 		h.hist = append(h.hist, line)
 		h.collide = map[string]bool{}
 		maxfee := h.E.CCfg.GetMaxTxFee(c.Height + 1)
 		maxnum := h.E.CCfg.GetP(c.Height).MaxTxNumber
 		cc := h.E.CCfg
 		txh := !cc.IsPara() && cc.IsEnableFork(c.Height, "ForkTxHeight", cc.IsEnable("TxHeight"))
-		h.emit(fmt.Sprintf("env cap=%d shmax=%d per=%d last=%d minfee=%d maxrate=%d level=%s noexec=%s h=%d bt=%d now=%d ; maxfee=%d maxtxnum=%d txh=%s fbc=%s fsort=%s",
-			c.Cap, c.ShMax, c.Per, c.Last, c.MinFee, c.MaxRate, b01(c.Level), b01(c.NoExec), c.Height, c.BlkTime, c.Now, maxfee, maxnum,
+		h.emit(fmt.Sprintf("env cap=%d shmax=%d per=%d last=%d minfee=%d maxrate=%d level=%s noexec=%s para=%s h=%d bt=%d now=%d ; maxfee=%d maxtxnum=%d txh=%s fbc=%s fsort=%s",
+			c.Cap, c.ShMax, c.Per, c.Last, c.MinFee, c.MaxRate, b01(c.Level), b01(c.NoExec), b01(c.Para), c.Height, c.BlkTime, c.Now, maxfee, maxnum,
 			b01(txh), b01(cc.IsFork(c.Height+1, "ForkBlockCheck")), b01(cc.IsFork(c.Height, "ForkCheckEthTxSort"))), "ok")
 		h.Out.Stat("op_env", 1)
 		return
